@@ -326,10 +326,32 @@ def rule_no_swallow(ctx):
     ctx.check(len(quit_guards) >= 1, "%s:quit-test" % UCI_LOOP, "uci_loop tests the parsed command for Quit", b.where(pb),
               bad_what="uci_loop has no test for UCICommand::Quit")
     start = b.blocks[pb].term["target"]
-    # a silent drop: reach the parse again (next iteration) or EXIT without execute_command, a log, or the Quit test
-    silent = b.reachable_from(start, removed=execs | logs | quit_guards, include_start=True)
+    # a silent drop: reach the parse again (next iteration) or EXIT without execute_command or a log, other than on the Quit edge
+    quit_edges = {}
+    for blk in b.blocks:
+        if blk.cleanup or blk.term["k"] != "switch":
+            continue
+        if blk.idx in quit_guards:
+            quit_edges[blk.idx] = {a[1] for a in blk.term["arms"] if quit_idx and a[0] == quit_idx[0]}
+        fl = C.resolve_flag(ix, b, sym, blk.term["discr"]) if blk.term.get("discr_ty") == "bool" else None
+        if fl is not None and fl[1].get(True) == {"Quit"}:
+            f_, tr_ = C.switch_edges(blk.term)
+            quit_edges[blk.idx] = set(tr_)
+            quit_edges.pop(fl[2], None)  # the discriminant switch only sets the flag
+    silent = set()
+    stack = [start]
+    while stack:
+        x = stack.pop()
+        if x in silent or x in execs or x in logs:
+            continue
+        silent.add(x)
+        if x >= 0:
+            for y in b.succ(x):
+                if y in quit_edges.get(x, ()):
+                    continue
+                stack.append(y)
     ctx.check(pb not in silent and mir.EXIT not in silent, "%s:no-silent-drop" % UCI_LOOP,
-              "from a parsed line, the next read is reached only through execute_command, an error log, or the Quit exit", b.where(pb),
+              "from a parsed line, the next read is reached only through execute_command or an error log; only the Quit edge leaves the loop", b.where(pb),
               bad_what="a parsed command can be dropped: the loop reaches the next read (or returns) without calling execute_command, logging, or testing for Quit")
     # the result of execute_command is not discarded silently: it flows into a call that logs
     for eb in sorted(execs):
